@@ -152,8 +152,15 @@ func runsFor(prop, tier string) []run {
 			if a.rf >= 5 || a.n >= 4 {
 				d = pick(5, 6)
 			}
+			_ = d
 			rs = append(rs, run{a.name, eb.Cfg{RF: a.rf, N: a.n, Alphabet: alpha, Oracles: []string{"c09"}, Drain: true, MaxRegs: 5, MaxRestarts: 1, MaxFaults: 2, Revs: a.revs, States: a.states}, d, minutes(pickf(0.3, 2))})
 		}
+		// bootstrap again after the volume lost every replica while the controller kept running
+		loss := eb.Cfg{RF: 3, N: 3, Alphabet: []string{"MonFail", "Restart", "Reg", "RegF", "Start", "StartWrong", "Down", "Up"}, Oracles: []string{"c09"}, Drain: true, MaxRegs: 6, MaxRestarts: 3, MaxFaults: 3, InitOps: rw2}
+		rs = append(rs, run{"rf3-rebootstrap-after-total-loss", loss, pick(6, 8), minutes(pickf(0.5, 3))})
+		loss2 := loss
+		loss2.InitOps = append(append([]string{}, rw2...), "W:0", "MonFail:1", "Restart:1", "W:0")
+		rs = append(rs, run{"rf3-rebootstrap-one-replica-behind", loss2, pick(6, 8), minutes(pickf(0.5, 3))})
 		return rs
 	case "C07":
 		or := []string{"c02", "c04", "c07", "c10", "c18"}
